@@ -10,6 +10,7 @@ import GoatModel.Merkle
 import GoatModel.Relayer
 import GoatModel.Bitcoin
 import GoatModel.Locking
+import GoatModel.Comet
 namespace Goat.World
 open Goat.Wire
 
@@ -30,6 +31,7 @@ structure W where
   btc : Bitcoin.State := default
   lock : Locking.State := default
   accounts : List Bytes := []
+  comet : Comet.VSet := []
   o : Oracles := {}
   deriving Inhabited
 
@@ -226,6 +228,7 @@ def step (w : W) (o : Op) : W × String :=
         validators := [], lockingIdx := [], ranking := [], valset := [], tokens := [], threshold := [], slashed := [],
         nonce := o.nat "nonce", pool := { goat := 0, gas := 0, remain := o.int "remain" }, qRewards := [], qUnlocks := [], unlockQueue := [] }
     ({ w with lock := lk }, "=> ok")
+  | "reset" => ({}, "=> ok")
   | "acc.add" => ({ w with accounts := w.accounts ++ [o.bytes "addr"] }, "=> ok")
   | "dump.rel" => (w, "=> " ++ dumpRel w.rel)
   | "dump.btc" => (w, "=> " ++ dumpBtc w.btc)
@@ -331,7 +334,9 @@ def step (w : W) (o : Op) : W × String :=
     match r with
     | .ok (lk, ups) =>
       let ss := sortStr (ups.map (fun u => s!"{toHex u.pubkey}|{u.power}"))
-      ({ w with lock := lk }, "=> ok ups=" ++ lst ss)
+      match Comet.apply w.comet (ups.map (fun u => (u.pubkey, Comet.toInt64 u.power))) with
+      | .ok cs => ({ w with lock := lk, comet := cs }, "=> ok ups=" ++ lst ss ++ " ;; comet=ok")
+      | .error e => ({ w with lock := lk }, "=> ok ups=" ++ lst ss ++ " ;; comet=err:" ++ e)
     | _ => (w, "=> " ++ res r)
   | "btc.dequeue" =>
     match Bitcoin.dequeue w.btc with
